@@ -361,7 +361,7 @@ type dev struct {
 func menu() []dev {
 	var m []dev
 	add := func(slot, name string, f func(p, f *sbom.Node)) { m = append(m, dev{Name: slot + "=" + name, Slot: slot, Do: f}) }
-	txt := []string{"x", "Ünï cödé ✓ 日本", "a b"}
+	txt := []string{"x", "Ünï cödé ✓ 日本", "a b", "q\"uo\\te <&> {}[]:,"}
 	str := func(slot string, vals []string, set func(n *sbom.Node, v string), file bool) {
 		for _, v := range vals {
 			v := v
